@@ -289,7 +289,8 @@ def large_m_balance(chk):
     (Hoeffding radius at delta = 1e-9 over all buckets)"""
     import math
     out = os.path.join(chk.wd, "largem.json")
-    harness("c17", ["largem", "out=" + out, "seed=%d" % chk.seed, "n=%d" % (200000 if chk.tier == "quick" else 1000000)], timeout=1500)
+    harness("c17", ["largem", "out=" + out, "seed=%d" % chk.seed, "n=%d" % (200000 if chk.tier == "quick" else 1000000),
+                    "first_trials=%d" % (400 if chk.tier == "quick" else 3000)], timeout=1500)
     r = json.load(open(out))
     worst = 0.0
     for c in r["cases"]:
@@ -301,15 +302,25 @@ def large_m_balance(chk):
             continue
         n = c["used"]
         chk.add("evaluations", c["draws"])
-        rad = math.sqrt(math.log(2.0 / (1e-9 / 96)) / (2.0 * n)) + 16.0 / c["m"]
-        for name in ("low", "high"):
-            for cnt in c[name]:
-                dev = abs(cnt / n - 1.0 / 16)
-                worst = max(worst, dev / rad)
-                if dev > rad:
-                    chk.violation(dict(kind="large-m", what="offset-%s-bits-not-uniform" % name, m=c["m"]),
-                                  dict(kind="large-m", case=c, radius=rad, seed=chk.seed))
-                    break
+        rad = math.sqrt(math.log(2.0 / (1e-9 / 400)) / (2.0 * n)) + 16.0 / c["m"]
+        nf = c["first_trials"]
+        radf = math.sqrt(math.log(2.0 / (1e-9 / 400)) / (2.0 * nf)) + 16.0 / c["m"]
+        for name, nn, rr in (("low", n, rad), ("high", n, rad), ("first_low", nf, radf), ("first_high", nf, radf)):
+            hist = c[name]
+            bad = False
+            # residues modulo 2, 4, 8, 16 (resp. the top 1..4 bits): a truncated index shows first in the coarsest split
+            for k in (2, 4, 8, 16):
+                if name.endswith("low"):
+                    groups = [sum(hist[j] for j in range(16) if j % k == r) for r in range(k)]
+                else:
+                    groups = [sum(hist[r * (16 // k):(r + 1) * (16 // k)]) for r in range(k)]
+                for cnt in groups:
+                    dev = abs(cnt / nn - 1.0 / k)
+                    worst = max(worst, dev / rr)
+                    bad = bad or dev > rr
+            if bad:
+                chk.violation(dict(kind="large-m", what="%s-bits-not-uniform" % name, m=c["m"]),
+                              dict(kind="large-m", case=c, radius=rr, seed=chk.seed))
     chk.cov["large_m_worst_dev_over_radius"] = worst
     log("[C17] large m (65537, 2^20, 2^24): offset low/high bits uniform, worst deviation/radius = %.3f" % worst)
 
